@@ -472,9 +472,9 @@ def cases(rng, tier):
                        ((100000, 1, 2), 1), ((3, 33334, 1), 3)]):
         yield dict(kind="big", n=list(shape), nvdim=nv, rep=rng.choice(["bin4", "bin8"]), sub=rng.getrandbits(32))
     # ---- main random streams
-    for _ in range(330 if quick else 5000):
+    for _ in range(1200 if quick else 6000):
         yield gen_rt(rng)
-    for _ in range(200 if quick else 3000):
+    for _ in range(700 if quick else 4000):
         yield gen_foreign(rng)
 
 
